@@ -472,7 +472,11 @@ package server
 //@ ensures {C18} result != nil && fresh(result) && len(result.members) == 0 && fresh(result.members)
 
 //@ func (*ZSet).Add
-//@ requires {C18} zsetOK(zset) && (forall k int :: 0 <= k && k < len(nms) ==> nms[k] != nil && !isNaN(nms[k].Score)) && arr(nms) != arr(zset.members)
+//@ requires {C18} zNN(zset)
+//@ requires {C18} zSorted(zset)
+//@ requires {C18} zUniq(zset)
+//@ requires {C18} forall k int :: 0 <= k && k < len(nms) ==> nms[k] != nil && !isNaN(nms[k].Score)
+//@ requires {C18} arr(nms) != arr(zset.members)
 //@ assigns zset.members, comp:E|Ref, alloc
 //@ ensures {C18} zNN(zset)
 //@ ensures {C18} zSorted(zset)
@@ -588,8 +592,9 @@ package server
 //@   invariant forall i int :: 0 <= i && i < len(mems) ==> exists k int :: 0 <= k && k < len(zset.members) && zset.members[k] == mems[i]
 //@   decreases len(zset.members) - rangeindex
 
-// (*ZSet).IncBy and the ZINCRBY handler are not under contract: the re-insertion after the score update needs the transitivity of the score
-// order across the removed position, which did not discharge within the limit.
+// (*ZSet).IncBy and the ZINCRBY handler are not under contract: after the member is removed and its score updated, the precondition
+// "ordered by score" of the re-insertion (zset.Add) did not discharge (it needs the order across the removed position together with
+// the fact that no remaining entry is the updated object).
 
 // ---------------------------------------------------------------- set / sorted set records and handlers
 
